@@ -25,10 +25,12 @@ Proof. unfold getb, setb. rewrite get_set_same. destruct b; reflexivity. Qed.
 Definition keeps (P : nat -> Prop) (k : K) : Prop :=
   forall ie f S f' n, P n -> get f' n (k ie f S) = get f' n S.
 
+Lemma get_add_seen f n e S : get f n (add_seen e S) = get f n S.
+Proof. reflexivity. Qed.
 Lemma update_conclusion_other id i c S f n : id <> n -> get f n (update_conclusion id i c S) = get f n S.
 Proof.
   intros H. unfold update_conclusion. destruct c; [reflexivity|].
-  destruct (memb i _); [reflexivity|]. rewrite !get_set_other_node; auto.
+  destruct (seenb _ _ _ _ _); [reflexivity|]. rewrite get_add_seen. rewrite !get_set_other_node; auto.
 Qed.
 
 Lemma yield_upd_other (P : nat -> Prop) id ie c k S f n :
@@ -95,7 +97,7 @@ Section Frame.
 End Frame.
 
 (* ---- more store algebra ---- *)
-Ltac fne := unfold FLAG, SEENT, SEENF, DYN, LEV, REV, RY; lia.
+Ltac fne := unfold FLAG, DYN, LEV, REV, RY; lia.
 Lemma get_set_diff f n f' n' v S : (f' <> f \/ n' <> n) -> get f n (set f' n' v S) = get f n S.
 Proof.
   intros H. rewrite get_set. destruct H as [H|H]; apply Nat.eqb_neq in H; rewrite H; [reflexivity|rewrite andb_false_r; reflexivity].
@@ -114,32 +116,51 @@ Proof.
 Qed.
 
 Lemma uc_out id i c S : out (update_conclusion id i c S) = out S.
-Proof. unfold update_conclusion. destruct c; [reflexivity|]. destruct (memb i _); reflexivity. Qed.
-Lemma uc_field id i c S f n : f <> DYN -> f <> SEENT -> f <> SEENF -> get f n (update_conclusion id i c S) = get f n S.
+Proof. unfold update_conclusion. destruct c; [reflexivity|]. destruct (seenb _ _ _ _ _); reflexivity. Qed.
+Lemma uc_field id i c S f n : f <> DYN -> get f n (update_conclusion id i c S) = get f n S.
 Proof.
-  intros H1 H2 H3. unfold update_conclusion. destruct c; [reflexivity|]. destruct (memb i _); [reflexivity|].
-  destruct (negb _); rewrite !get_set_diff by (left; congruence); reflexivity.
+  intros H1. unfold update_conclusion. destruct c; [reflexivity|]. destruct (seenb _ _ _ _ _); [reflexivity|].
+  rewrite get_add_seen. rewrite !get_set_diff by (left; congruence). reflexivity.
 Qed.
-Lemma uc_seen id i c S n :
-  incl (get SEENT n (update_conclusion id i c S)) (i :: get SEENT n S) /\
-  incl (get SEENF n (update_conclusion id i c S)) (i :: get SEENF n S).
+
+(* ---- the coverage memory only grows, by entries of the current element at the nodes of the tree ---- *)
+Definition e_node (e : seen_entry) : nat := fst (fst (fst e)).
+Definition e_idx (e : seen_entry) : nat := snd e.
+Definition grow (P : nat -> Prop) (i : nat) (S S1 : store) : Prop :=
+  forall e, In e (seen S1) -> In e (seen S) \/ (e_idx e = i /\ P (e_node e)).
+Lemma grow_eq P i S S1 : seen S1 = seen S -> grow P i S S1.
+Proof. intros H e He. left. rewrite <- H. exact He. Qed.
+Lemma grow_trans P i S S1 S2 : grow P i S S1 -> grow P i S1 S2 -> grow P i S S2.
+Proof. intros H1 H2 e He. destruct (H2 e He) as [H|H]; [apply H1; exact H|right; exact H]. Qed.
+Lemma grow_mono (P Q : nat -> Prop) i S S1 : (forall n, P n -> Q n) -> grow P i S S1 -> grow Q i S S1.
+Proof. intros H H1 e He. destruct (H1 e He) as [H2|[H2 H3]]; [left; exact H2|right; split; [exact H2|apply H; exact H3]]. Qed.
+Lemma uc_grow id i c S : grow (fun n => n = id) i S (update_conclusion id i c S).
 Proof.
-  unfold update_conclusion. destruct c; [split; apply incl_tl, incl_refl|].
-  destruct (memb i _); [split; apply incl_tl, incl_refl|].
-  destruct (Nat.eq_dec id n) as [->|Hn].
-  - destruct (negb _).
-    + rewrite get_set_same. rewrite !get_set_diff by (left; fne). split; [apply incl_refl|apply incl_tl, incl_refl].
-    + rewrite get_set_same. rewrite !get_set_diff by (left; fne). split; [apply incl_tl, incl_refl|apply incl_refl].
-  - rewrite !get_set_diff by (right; assumption). split; apply incl_tl, incl_refl.
+  unfold update_conclusion. destruct c; [apply grow_eq; reflexivity|].
+  destruct (seenb _ _ _ _ _); [apply grow_eq; reflexivity|].
+  intros e [<-|He]; [right; split; reflexivity|left; exact He].
 Qed.
-(* the selection succeeds: output true, key not seen, nothing selected yet *)
+Definition fresh_at (id i : nat) (S : store) : Prop := forall e, In e (seen S) -> e_node e = id -> e_idx e <> i.
+Lemma fresh_from_grow (P : nat -> Prop) id i S S1 :
+  fresh_at id i S -> grow P i S S1 -> (forall n, P n -> n <> id) -> fresh_at id i S1.
+Proof.
+  intros Hf Hg Hp e He Hn. destruct (Hg e He) as [H|[_ H]]; [apply Hf; assumption|]. exfalso. apply (Hp _ H). exact Hn.
+Qed.
+Lemma seenb_fresh id tr c i S : fresh_at id i S -> seenb id tr c i S = false.
+Proof.
+  intros Hf. unfold seenb. destruct (existsb _ _) eqn:E; [|reflexivity]. exfalso.
+  apply existsb_exists in E. destruct E as [[[[n t] c'] j] [Hin He]]. simpl in He.
+  apply andb_prop in He. destruct He as [He Hj]. apply andb_prop in He. destruct He as [He _].
+  apply andb_prop in He. destruct He as [Hn _]. apply Nat.eqb_eq in Hn, Hj. subst.
+  apply (Hf _ Hin); reflexivity.
+Qed.
+(* the selection succeeds: output true, key not covered, nothing selected yet *)
 Lemma uc_dyn id i c S :
-  getb FLAG id S = false -> ~ In i (get SEENT id S) -> get DYN id S = [] ->
+  getb FLAG id S = false -> fresh_at id i S -> get DYN id S = [] ->
   get DYN id (update_conclusion id i c S) = union [] c.
 Proof.
   intros Hf Hs Hd. unfold update_conclusion. destruct c as [|x c]; [exact Hd|].
-  rewrite Hf. simpl negb. cbv iota. rewrite (memb_false _ _ Hs).
-  rewrite get_set_diff by (left; fne). rewrite get_set_same. rewrite Hd. reflexivity.
+  rewrite (seenb_fresh _ _ _ _ _ Hs). rewrite get_add_seen. rewrite get_set_same. rewrite Hd. reflexivity.
 Qed.
 
 Lemma incl_step (i : nat) A B C : incl A (i :: B) -> incl B (i :: C) -> incl A (i :: C).
@@ -149,7 +170,7 @@ Qed.
 
 (* ---- the invariant of one element's pass ---- *)
 Definition fresh (t : tree) (i : nat) (S : store) : Prop :=
-  forall n, In n (ids t) -> ~ In i (get SEENT n S) /\ ~ In i (get SEENF n S).
+  forall e, In e (seen S) -> In (e_node e) (ids t) -> e_idx e <> i.
 Definition dynclear (t : tree) (S : store) : Prop := forall n, In n (ids t) -> get DYN n S = [].
 Definition inT (t : tree) : nat -> Prop := fun n => In n (ids t).
 
@@ -157,14 +178,14 @@ Definition inT (t : tree) : nat -> Prop := fun n => In n (ids t).
 Definition Rel (t : tree) (i : nat) (e : elem) (S S1 : store) : Prop :=
   out S1 = out S /\
   (forall f n, ~ In n (ids t) -> get f n S1 = get f n S) /\
-  (forall n, incl (get SEENT n S1) (i :: get SEENT n S) /\ incl (get SEENF n S1) (i :: get SEENF n S)) /\
+  grow (inT t) i S S1 /\
   getb FLAG (root_id t) S1 = fst (pe t e) /\
   concl_now t S1 = snd (pe t e).
 (* the final store, relative to the store the continuation returned *)
 Definition Fin (t : tree) (S' Sf : store) : Prop :=
   out Sf = out S' /\
   (forall f n, ~ In n (ids t) -> get f n Sf = get f n S') /\
-  (forall n, get SEENT n Sf = get SEENT n S' /\ get SEENF n Sf = get SEENF n S') /\
+  seen Sf = seen S' /\
   (forall n, In n (ids t) -> get DYN n Sf = []).
 
 Lemma root_in t : In (root_id t) (ids t).
@@ -203,8 +224,7 @@ Section Bound.
       exists (setb FLAG id (negb (holds e cs)) S). split.
       + repeat split.
         * intros f n Hn. apply get_setb_diff. right. intro; subst; apply Hn; simpl; auto.
-        * unfold setb; rewrite get_set_diff by (left; fne). apply incl_tl, incl_refl.
-        * unfold setb; rewrite get_set_diff by (left; fne). apply incl_tl, incl_refl.
+        * apply grow_eq. reflexivity.
         * simpl. apply getb_setb_same.
       + simpl. repeat split; auto. intros n [<-|[]]. 
         rewrite (Hk (i, e) _ _ DYN id) by (red; simpl; auto).
@@ -217,9 +237,16 @@ Section Bound.
       assert (Hndr : NoDup (ids r)) by (eapply nodup_app_r; eauto).
       assert (Hlr : forall n, In n (ids l) -> ~ In n (ids r)).
       { apply nodup_app_disj. exact Hnd. }
-      assert (Hfrl : fresh l i S) by (intros n Hn; apply Hfr; simpl; right; apply in_or_app; auto).
+      assert (Hfrl : fresh l i S) by (intros e0 He0 Hn; apply (Hfr e0 He0); simpl; right; apply in_or_app; auto).
+      assert (Hml : forall n, inT l n -> inT (Node id s l r) n) by (intros n Hn; red; simpl; right; apply in_or_app; auto).
+      assert (Hmr : forall n, inT r n -> inT (Node id s l r) n) by (intros n Hn; red; simpl; right; apply in_or_app; auto).
+      assert (Hmi : forall n, n = id -> inT (Node id s l r) n) by (intros n ->; red; simpl; auto).
+      assert (Hnl_id : forall n, inT l n -> n <> id) by (intros n Hn E; subst; contradiction).
+      assert (Hnr_id : forall n, inT r n -> n <> id) by (intros n Hn E; subst; contradiction).
+      assert (Hmlr : forall n, inT l n \/ inT r n -> inT (Node id s l r) n) by (intros n [H|H]; [apply Hml|apply Hmr]; exact H).
+      assert (Hnlr_id : forall n, inT l n \/ inT r n -> n <> id) by (intros n [H|H]; [apply Hnl_id|apply Hnr_id]; exact H).
       assert (Hdcl : dynclear l S) by (intros n Hn; apply Hdc; simpl; right; apply in_or_app; auto).
-      assert (Hfid : ~ In i (get SEENT id S) /\ ~ In i (get SEENF id S)) by (apply Hfr; simpl; auto).
+      assert (Hfid : fresh_at id i S) by (intros e0 He0 Hn; apply (Hfr e0 He0); rewrite Hn; simpl; auto).
       assert (Hdid : get DYN id S = []) by (apply Hdc; simpl; auto).
       assert (Hkid : forall ie f S' f', get f' id (k ie f S') = get f' id S') by (intros; apply Hk; red; simpl; auto).
       assert (Hkl : forall ie f S' f' n, In n (ids l) -> get f' n (k ie f S') = get f' n S')
@@ -260,16 +287,14 @@ Section Bound.
              ++ exact Ho1.
              ++ intros f n Hn. rewrite get_setb_diff by (right; intro; subst; apply Hn; simpl; auto).
                 apply Hout1. intro; apply Hn; simpl; right; apply in_or_app; auto.
-             ++ unfold setb; rewrite get_set_diff by (left; fne). apply Hseen1.
-             ++ unfold setb; rewrite get_set_diff by (left; fne). apply Hseen1.
+             ++ apply (grow_mono (inT l)); [exact Hml|exact Hseen1].
              ++ simpl root_id. apply getb_setb_same.
              ++ change (get DYN id (setb FLAG id true S1l) = []). rewrite get_setb_diff by (left; fne). rewrite Hout1 by assumption. exact Hdid.
           -- unfold KK in Hfinl. simpl in Hfinl. destruct Hfinl as [Hf1 [Hf2 [Hf3 Hf4]]].
              repeat split.
              ++ exact Hf1.
              ++ intros f n Hn. apply Hf2. intro; apply Hn; simpl; right; apply in_or_app; auto.
-             ++ apply Hf3.
-             ++ apply Hf3.
+             ++ exact Hf3.
              ++ intros n [<-|Hn].
                 ** rewrite Hf2 by assumption. rewrite Hkid. rewrite get_setb_diff by (left; fne).
                    rewrite Hout1 by assumption. exact Hdid.
@@ -290,9 +315,9 @@ Section Bound.
           assert (HS2flag : getb FLAG id S2 = false).
           { unfold S2. unfold getb. rewrite get_setb_diff by (left; fne). apply (getb_setb_same FLAG id false). }
           assert (Hfrr : fresh r i S2).
-          { intros n Hn. assert (n <> id) by (intro; subst; contradiction).
-            assert (~ In n (ids l)) by (intro Hx; exact (Hlr n Hx Hn)).
-            rewrite !HS2l by assumption. apply Hfr. simpl; right; apply in_or_app; auto. }
+          { intros e0 He0 Hn. destruct (Hseen1 e0 He0) as [Hin|[_ Hin]].
+            - apply (Hfr e0 Hin). simpl; right; apply in_or_app; auto.
+            - exfalso. exact (Hlr _ Hin Hn). }
           assert (Hdcr : dynclear r S2).
           { intros n Hn. assert (n <> id) by (intro; subst; contradiction).
             assert (~ In n (ids l)) by (intro Hx; exact (Hlr n Hx Hn)).
@@ -318,6 +343,10 @@ Section Bound.
              { unfold getb. rewrite Hg2 by assumption. rewrite Hidr1. unfold S2, setb. rewrite get_set_same. reflexivity. }
              rewrite Hry in Hf1, Hf2, Hf3.
              set (S4 := set RY id (get RY id (setb FLAG id false S1l)) (ev W r (Some (i, e)) K' S2)) in *.
+             assert (G4 : grow (fun n => inT l n \/ inT r n) i S S4).
+             { apply grow_trans with S1l; [apply (grow_mono (inT l)); [intros n H; left; exact H|exact Hseen1]|].
+               apply grow_trans with S1r; [apply (grow_mono (inT r)); [intros n H; right; exact H|exact Hseen2]|].
+               apply grow_eq. exact Hg3. }
              assert (HS4l : forall f n, In n (ids l) -> get f n S4 = get f n S1l).
              { intros f n Hn. assert (n <> id) by (intro; subst; contradiction).
                unfold S4. rewrite get_set_diff by auto. rewrite Hg2 by (exact (Hlr n Hn)). apply Hrootl. exact Hn. }
@@ -332,7 +361,7 @@ Section Bound.
              set (U := update_conclusion id i cl S4) in *.
              assert (HUdyn : get DYN id U = union [] cl).
              { apply uc_dyn; [exact HS4flag| |].
-               - rewrite HS4id by fne. apply Hfid.
+               - exact (fresh_from_grow _ id i S S4 Hfid G4 Hnlr_id).
                - rewrite HS4id by fne. exact Hdid. }
              assert (HUflag : getb FLAG id U = false).
              { unfold getb, U. rewrite uc_field by fne. exact HS4flag. }
@@ -347,12 +376,8 @@ Section Bound.
                    assert (Hn3 : ~ In n (ids r)) by (intro; apply Hn; simpl; right; apply in_or_app; auto).
                    unfold U. rewrite update_conclusion_other by auto. unfold S4. rewrite get_set_diff by auto.
                    rewrite Hg2 by assumption. rewrite Hout2 by assumption. apply HS2l; assumption.
-                ** eapply incl_step; [apply uc_seen|]. unfold S4. rewrite get_set_diff by (left; fne).
-                   rewrite (proj1 (Hg3 n)). eapply incl_step; [apply Hseen2|]. unfold S2, setb.
-                   rewrite !get_set_diff by (left; fne). apply Hseen1.
-                ** eapply incl_step; [apply uc_seen|]. unfold S4. rewrite get_set_diff by (left; fne).
-                   rewrite (proj2 (Hg3 n)). eapply incl_step; [apply Hseen2|]. unfold S2, setb.
-                   rewrite !get_set_diff by (left; fne). apply Hseen1.
+                ** apply grow_trans with S4; [exact (grow_mono _ _ _ _ _ Hmlr G4)|].
+                   exact (grow_mono _ _ _ _ _ Hmi (uc_grow id i cl S4)).
                 ** exact HUflag.
                 ** exact HUdyn.
              ++ repeat split.
@@ -361,8 +386,7 @@ Section Bound.
                    assert (Hn1 : n <> id) by (intro; subst; apply Hn; simpl; auto).
                    assert (Hn2 : ~ In n (ids l)) by (intro; apply Hn; simpl; right; apply in_or_app; auto).
                    rewrite Hf2 by assumption. apply get_set_diff. auto.
-                ** rewrite (proj1 (Hf3 n)). apply get_set_diff. left; fne.
-                ** rewrite (proj2 (Hf3 n)). apply get_set_diff. left; fne.
+                ** rewrite Hf3. reflexivity.
                 ** intros n [<-|Hn].
                    --- rewrite Hf2 by assumption. apply get_set_same.
                    --- apply in_app_or in Hn. destruct Hn as [Hn|Hn]; [apply Hf4; exact Hn|].
@@ -378,12 +402,15 @@ Section Bound.
              assert (HS1r' : forall f n, (RY <> f \/ id <> n) -> get f n S1r' = get f n S1r).
              { intros f n Hn. unfold S1r'. apply get_setb_diff. exact Hn. }
              rewrite Hcl2 in Hfinr.
+             assert (G1 : grow (fun n => inT l n \/ inT r n) i S S1r').
+             { apply grow_trans with S1l; [apply (grow_mono (inT l)); [intros n H; left; exact H|exact Hseen1]|].
+               apply (grow_mono (inT r)); [intros n H; right; exact H|exact Hseen2]. }
              assert (HUflag0 : getb FLAG id S1r' = false).
              { unfold getb. rewrite HS1r' by (left; fne). rewrite Hidr1. exact HS2flag. }
              set (U := update_conclusion id i cr S1r') in *.
              assert (HUdyn : get DYN id U = union [] cr).
              { apply uc_dyn; [exact HUflag0| |].
-               - rewrite HS1r' by (left; fne). rewrite Hidr1. rewrite HS2id by fne. apply Hfid.
+               - exact (fresh_from_grow _ id i S S1r' Hfid G1 Hnlr_id).
                - rewrite HS1r' by (left; fne). rewrite Hidr1. rewrite HS2id by fne. exact Hdid. }
              assert (HUflag : getb FLAG id U = false).
              { unfold getb, U. rewrite uc_field by fne. exact HUflag0. }
@@ -403,12 +430,8 @@ Section Bound.
                    assert (Hn3 : ~ In n (ids r)) by (intro; apply Hn; simpl; right; apply in_or_app; auto).
                    unfold U. rewrite update_conclusion_other by auto. rewrite HS1r' by auto.
                    rewrite Hout2 by assumption. apply HS2l; assumption.
-                ** eapply incl_step; [apply uc_seen|]. rewrite HS1r' by (left; fne).
-                   eapply incl_step; [apply Hseen2|]. unfold S2, setb.
-                   rewrite !get_set_diff by (left; fne). apply Hseen1.
-                ** eapply incl_step; [apply uc_seen|]. rewrite HS1r' by (left; fne).
-                   eapply incl_step; [apply Hseen2|]. unfold S2, setb.
-                   rewrite !get_set_diff by (left; fne). apply Hseen1.
+                ** apply grow_trans with S1r'; [exact (grow_mono _ _ _ _ _ Hmlr G1)|].
+                   exact (grow_mono _ _ _ _ _ Hmi (uc_grow id i cr S1r')).
                 ** exact HUflag.
                 ** exact HUdyn.
              ++ repeat split.
@@ -419,10 +442,7 @@ Section Bound.
                    assert (Hn3 : ~ In n (ids r)) by (intro; apply Hn; simpl; right; apply in_or_app; auto).
                    rewrite Hf2 by assumption. rewrite get_set_diff by auto. rewrite Hg2 by assumption.
                    apply get_set_diff. auto.
-                ** rewrite (proj1 (Hf3 n)). rewrite get_set_diff by (left; fne). rewrite (proj1 (Hg3 n)).
-                   apply get_set_diff. left; fne.
-                ** rewrite (proj2 (Hf3 n)). rewrite get_set_diff by (left; fne). rewrite (proj2 (Hg3 n)).
-                   apply get_set_diff. left; fne.
+                ** rewrite Hf3. cbn [seen set]. rewrite Hg3. reflexivity.
                 ** intros n [<-|Hn].
                    --- rewrite Hf2 by assumption. rewrite get_set_diff by (left; fne). rewrite Hg2 by assumption.
                        apply get_set_same.
@@ -462,9 +482,9 @@ Section Bound.
           assert (HS2id : forall f, f <> LEV -> get f id S2 = get f id S).
           { intros f H1. unfold S2. rewrite !get_setb_diff by (left; congruence). apply Hout1. assumption. }
           assert (Hfrr : fresh r i S2).
-          { intros n Hn. assert (n <> id) by (intro; subst; contradiction).
-            assert (~ In n (ids l)) by (intro Hx; exact (Hlr n Hx Hn)).
-            rewrite !HS2l by assumption. apply Hfr. simpl; right; apply in_or_app; auto. }
+          { intros e0 He0 Hn. destruct (Hseen1 e0 He0) as [Hin|[_ Hin]].
+            - apply (Hfr e0 Hin). simpl; right; apply in_or_app; auto.
+            - exfalso. exact (Hlr _ Hin Hn). }
           assert (Hdcr : dynclear r S2).
           { intros n Hn. assert (n <> id) by (intro; subst; contradiction).
             assert (~ In n (ids l)) by (intro Hx; exact (Hlr n Hx Hn)).
@@ -481,6 +501,9 @@ Section Bound.
           set (Sc := setb REV id true (setb FLAG id fr S1r)) in *.
           assert (HSc : forall f n, n <> id -> get f n Sc = get f n S1r).
           { intros f n Hn. unfold Sc. rewrite !get_setb_diff by auto. reflexivity. }
+          assert (Gc : grow (fun n => inT l n \/ inT r n) i S Sc).
+          { apply grow_trans with S1l; [apply (grow_mono (inT l)); [intros n H; left; exact H|exact Hseen1]|].
+            apply (grow_mono (inT r)); [intros n H; right; exact H|exact Hseen2]. }
           assert (HScid : forall f, f <> REV -> f <> FLAG -> get f id Sc = get f id S2).
           { intros f H1 H2. unfold Sc. rewrite !get_setb_diff by (left; congruence). apply Hidr1. }
           assert (HScflag : getb FLAG id Sc = fr).
@@ -506,12 +529,7 @@ Section Bound.
                    assert (Hn2 : ~ In n (ids l)) by (intro; apply Hn; simpl; right; apply in_or_app; auto).
                    assert (Hn3 : ~ In n (ids r)) by (intro; apply Hn; simpl; right; apply in_or_app; auto).
                    rewrite HSc by assumption. rewrite Hout2 by assumption. apply HS2l; assumption.
-                ** unfold Sc, setb. rewrite !get_set_diff by (left; fne).
-                   eapply incl_step; [apply Hseen2|]. unfold S2, setb.
-                   rewrite !get_set_diff by (left; fne). apply Hseen1.
-                ** unfold Sc, setb. rewrite !get_set_diff by (left; fne).
-                   eapply incl_step; [apply Hseen2|]. unfold S2, setb.
-                   rewrite !get_set_diff by (left; fne). apply Hseen1.
+                ** exact (grow_mono _ _ _ _ _ Hmlr Gc).
                 ** exact HScflag.
                 ** change (get DYN id Sc = []). rewrite HScid by fne. rewrite HS2id by fne. exact Hdid.
              ++ repeat split.
@@ -522,10 +540,7 @@ Section Bound.
                    assert (Hn3 : ~ In n (ids r)) by (intro; apply Hn; simpl; right; apply in_or_app; auto).
                    rewrite Hf2 by assumption. rewrite get_setb_diff by auto. rewrite Hg2 by assumption.
                    apply get_set_diff. auto.
-                ** rewrite (proj1 (Hf3 n)). rewrite get_setb_diff by (left; fne). rewrite (proj1 (Hg3 n)).
-                   apply get_set_diff. left; fne.
-                ** rewrite (proj2 (Hf3 n)). rewrite get_setb_diff by (left; fne). rewrite (proj2 (Hg3 n)).
-                   apply get_set_diff. left; fne.
+                ** rewrite Hf3. cbn [seen set setb]. rewrite Hg3. reflexivity.
                 ** intros n [<-|Hn].
                    --- rewrite Hf2 by assumption. rewrite get_setb_diff by (left; fne). rewrite Hg2 by assumption.
                        apply get_set_same.
@@ -539,7 +554,7 @@ Section Bound.
              set (U := update_conclusion id i cr Sc) in *.
              assert (HUdyn : get DYN id U = union [] cr).
              { apply uc_dyn; [exact HScflag| |].
-               - rewrite HScid by fne. rewrite HS2id by fne. apply Hfid.
+               - exact (fresh_from_grow _ id i S Sc Hfid Gc Hnlr_id).
                - rewrite HScid by fne. rewrite HS2id by fne. exact Hdid. }
              assert (HUflag : getb FLAG id U = false).
              { unfold getb, U. rewrite uc_field by fne. exact HScflag. }
@@ -555,12 +570,8 @@ Section Bound.
                    assert (Hn3 : ~ In n (ids r)) by (intro; apply Hn; simpl; right; apply in_or_app; auto).
                    unfold U. rewrite update_conclusion_other by auto.
                    rewrite HSc by assumption. rewrite Hout2 by assumption. apply HS2l; assumption.
-                ** eapply incl_step; [apply uc_seen|]. unfold Sc, setb. rewrite !get_set_diff by (left; fne).
-                   eapply incl_step; [apply Hseen2|]. unfold S2, setb.
-                   rewrite !get_set_diff by (left; fne). apply Hseen1.
-                ** eapply incl_step; [apply uc_seen|]. unfold Sc, setb. rewrite !get_set_diff by (left; fne).
-                   eapply incl_step; [apply Hseen2|]. unfold S2, setb.
-                   rewrite !get_set_diff by (left; fne). apply Hseen1.
+                ** apply grow_trans with Sc; [exact (grow_mono _ _ _ _ _ Hmlr Gc)|].
+                   exact (grow_mono _ _ _ _ _ Hmi (uc_grow id i cr Sc)).
                 ** exact HUflag.
                 ** exact HUdyn.
              ++ repeat split.
@@ -571,10 +582,7 @@ Section Bound.
                    assert (Hn3 : ~ In n (ids r)) by (intro; apply Hn; simpl; right; apply in_or_app; auto).
                    rewrite Hf2 by assumption. rewrite get_setb_diff by auto. rewrite Hg2 by assumption.
                    apply get_set_diff. auto.
-                ** rewrite (proj1 (Hf3 n)). rewrite get_setb_diff by (left; fne). rewrite (proj1 (Hg3 n)).
-                   apply get_set_diff. left; fne.
-                ** rewrite (proj2 (Hf3 n)). rewrite get_setb_diff by (left; fne). rewrite (proj2 (Hg3 n)).
-                   apply get_set_diff. left; fne.
+                ** rewrite Hf3. cbn [seen set setb]. rewrite Hg3. reflexivity.
                 ** intros n [<-|Hn].
                    --- rewrite Hf2 by assumption. rewrite get_setb_diff by (left; fne). rewrite Hg2 by assumption.
                        apply get_set_same.
@@ -600,7 +608,7 @@ Section Bound.
           set (U := update_conclusion id i cl Sa) in *.
           assert (HUdyn : get DYN id U = union [] cl).
           { apply uc_dyn; [exact HSaflag| |].
-            - rewrite HSaid by fne. apply Hfid.
+            - refine (fresh_from_grow (inT l) id i S Sa Hfid _ Hnl_id). exact Hseen1.
             - rewrite HSaid by fne. exact Hdid. }
           assert (HUflag : getb FLAG id U = false).
           { unfold getb, U. rewrite uc_field by fne. exact HSaflag. }
@@ -612,8 +620,8 @@ Section Bound.
                 assert (Hn1 : n <> id) by (intro; subst; apply Hn; simpl; auto).
                 assert (Hn2 : ~ In n (ids l)) by (intro; apply Hn; simpl; right; apply in_or_app; auto).
                 unfold U. rewrite update_conclusion_other by auto. rewrite HSa by assumption. apply Hout1. assumption.
-             ++ eapply incl_step; [apply uc_seen|]. unfold Sa, setb. rewrite !get_set_diff by (left; fne). apply Hseen1.
-             ++ eapply incl_step; [apply uc_seen|]. unfold Sa, setb. rewrite !get_set_diff by (left; fne). apply Hseen1.
+             ++ apply grow_trans with Sa; [apply (grow_mono (inT l)); [exact Hml|exact Hseen1]|].
+                exact (grow_mono _ _ _ _ _ Hmi (uc_grow id i cl Sa)).
              ++ exact HUflag.
              ++ exact HUdyn.
           -- repeat split.
@@ -622,8 +630,7 @@ Section Bound.
                 assert (Hn1 : n <> id) by (intro; subst; apply Hn; simpl; auto).
                 assert (Hn2 : ~ In n (ids l)) by (intro; apply Hn; simpl; right; apply in_or_app; auto).
                 rewrite Hf2 by assumption. apply get_set_diff. auto.
-             ++ rewrite (proj1 (Hf3 n)). apply get_set_diff. left; fne.
-             ++ rewrite (proj2 (Hf3 n)). apply get_set_diff. left; fne.
+             ++ rewrite Hf3. reflexivity.
              ++ intros n [<-|Hn].
                 ** rewrite Hf2 by assumption. apply get_set_same.
                 ** apply in_app_or in Hn. destruct Hn as [Hn|Hn]; [apply Hf4; exact Hn|].
@@ -658,7 +665,7 @@ Section Run.
   Qed.
 
   Definition Inv (t : tree) (j : nat) (S : store) : Prop :=
-    (forall n x, In n (ids t) -> In x (get SEENT n S) \/ In x (get SEENF n S) -> x < j) /\ dynclear t S.
+    (forall e, In e (seen S) -> In (e_node e) (ids t) -> e_idx e < j) /\ dynclear t S.
 
   Lemma run_fold t : nextfree t = true -> NoDup (ids t) -> forall l j S, Inv t j S ->
       out (fold_left (fun S ie => ev W t (Some ie) (topk t) S) (enum_from j l) S)
@@ -667,9 +674,7 @@ Section Run.
     intros Hnf Hnd. induction l as [|e l IH]; intros j S [Hlt Hdc]; [reflexivity|].
     simpl enum_from. simpl fold_left.
     assert (Hfr : fresh t j S).
-    { intros n Hn. split; intro Hx.
-      - specialize (Hlt n j Hn (or_introl Hx)). lia.
-      - specialize (Hlt n j Hn (or_intror Hx)). lia. }
+    { intros e0 He0 Hn Hx. specialize (Hlt e0 He0 Hn). lia. }
     destruct (ev_bound W t Hnf Hnd j e (topk t) S Hfr Hdc (topk_keeps t _))
       as [S1 [[Ho [Hout [Hseen [Hfl Hcl]]]] [Hf1 [Hf2 [Hf3 Hf4]]]]].
     rewrite IH.
@@ -678,13 +683,10 @@ Section Run.
       destruct (pe t e) as [f c]. simpl in *. destruct f; [exact Ho|].
       rewrite Hcl. destruct c; [exact Ho|]. simpl. rewrite Ho. reflexivity.
     - split.
-      + intros n x Hn Hx. unfold binding in *.
-        assert (Hs1 : get SEENT n (topk t (j, e) (fst (pe t e)) S1) = get SEENT n S1) by (apply topk_keeps with (P := fun _ => True); exact I).
-        assert (Hs2 : get SEENF n (topk t (j, e) (fst (pe t e)) S1) = get SEENF n S1) by (apply topk_keeps with (P := fun _ => True); exact I).
-        rewrite (proj1 (Hf3 n)), (proj2 (Hf3 n)), Hs1, Hs2 in Hx.
-        destruct Hx as [Hx|Hx].
-        * apply (proj1 (Hseen n)) in Hx. destruct Hx as [<-|Hx]; [lia|]. specialize (Hlt n x Hn (or_introl Hx)). lia.
-        * apply (proj2 (Hseen n)) in Hx. destruct Hx as [<-|Hx]; [lia|]. specialize (Hlt n x Hn (or_intror Hx)). lia.
+      + intros e0 He0 Hn. unfold binding in *. rewrite Hf3 in He0.
+        assert (Hs1 : seen (topk t (j, e) (fst (pe t e)) S1) = seen S1).
+        { unfold topk. destruct (fst (pe t e)); [reflexivity|]. destruct (concl_now t S1); reflexivity. }
+        rewrite Hs1 in He0. destruct (Hseen e0 He0) as [Hin|[Hi _]]; [specialize (Hlt e0 Hin Hn); lia|lia].
       + exact Hf4.
   Qed.
 
@@ -695,6 +697,6 @@ Section Run.
               if f then S else match concl_now t S with [] => S | c => emit (c, fst ie) S end) with (topk t).
     rewrite ev_unbound by exact Hnf. unfold enum. rewrite run_fold; auto.
     - simpl. rewrite app_nil_r. apply rev_involutive.
-    - split; [intros n x _ [[]|[]]|intros n _; reflexivity].
+    - split; [intros e0 []|intros n _; reflexivity].
   Qed.
 End Run.
